@@ -60,7 +60,8 @@ def gen_case(ctx):
     case = {'reps': reps,
             'S': rng.choice(pv + [2.0, 2.0]), 'tau_exp': rng.choice([0.0, 0.0, 0.0] + pv),
             'N_sigma': rng.choice([1.0, 1.0] + pv), 'fft': rng.random() < 0.5,
-            'how': rng.choice(['arg', 'dict', 'global']),
+            'how': rng.choice(['arg', 'dict', 'global', 'mixed']),
+            'src': [rng.choice(['arg', 'dict', 'global']) for _ in range(3)],
             'cov': rng.choice([None, None, 1, 2])}
     case['via'] = [None, None, None, 'gm', 'corr', 'corrmat', 'cobs', None][(len(reps) + sum(len(r['samples']) for r in reps)) % 8]     # entry point of the analysis (no extra random draw)
     return case
@@ -90,17 +91,29 @@ def run_impl(case, o):
     reset_globals()
     kw = {}
     ens = o.mc_names
-    if case['how'] == 'arg':
-        kw = {'S': case['S'], 'tau_exp': case['tau_exp'], 'N_sigma': case['N_sigma']}
-    elif case['how'] == 'dict':
-        for e in ens:
-            pe.Obs.S_dict[e] = case['S']
-            pe.Obs.tau_exp_dict[e] = case['tau_exp']
-            pe.Obs.N_sigma_dict[e] = case['N_sigma']
-    else:
-        pe.Obs.S_global = case['S']
-        pe.Obs.tau_exp_global = case['tau_exp']
-        pe.Obs.N_sigma_global = case['N_sigma']
+    # each of the three parameters reaches the analysis through its own channel: explicit argument, per-ensemble
+    # dictionary or global default ('mixed': independently per parameter; decoys sit in the channels of lower rank)
+    how = case['how']
+    src = {'S': how, 'tau_exp': how, 'N_sigma': how}
+    if how == 'mixed':
+        src = dict(zip(['S', 'tau_exp', 'N_sigma'], case['src']))
+    glob = {'S': 'S_global', 'tau_exp': 'tau_exp_global', 'N_sigma': 'N_sigma_global'}
+    dic = {'S': pe.Obs.S_dict, 'tau_exp': pe.Obs.tau_exp_dict, 'N_sigma': pe.Obs.N_sigma_dict}
+    decoy = {'S': 3.7, 'tau_exp': 4.5, 'N_sigma': 2.5}
+    for name in ('S', 'tau_exp', 'N_sigma'):
+        if src[name] == 'arg':
+            kw[name] = case[name]
+            if how == 'mixed':
+                for e in ens:
+                    dic[name][e] = decoy[name]
+                setattr(pe.Obs, glob[name], decoy[name] * 1.3)
+        elif src[name] == 'dict':
+            for e in ens:
+                dic[name][e] = case[name]
+            if how == 'mixed':
+                setattr(pe.Obs, glob[name], decoy[name])
+        else:
+            setattr(pe.Obs, glob[name], case[name])
     try:
         # `gm` is the documented short form of `gamma_method`: both entry points are exercised
         # every entry point to the analysis: `Obs.gamma_method`, its short form `gm`, and the containers that forward to it
